@@ -323,6 +323,10 @@ func c11Gen(c *Ctx) (cs c11Case, cell string) {
 	case 5:
 		cs.Via = "env"
 	}
+	if len(cs.Choice) > 0 && c.K%6 == 2 {
+		// the public Option.Set, called by a program that applies its own configuration source before it parses
+		cs.Via = "set"
+	}
 	if cs.T.IsFunc() && cs.Via != "cli" {
 		cs.Via = "cli"
 	}
@@ -399,6 +403,16 @@ func c11Run(c *Ctx) {
 			}
 		}
 		pan = safely(func() { _, err = b.P.ParseArgs(args) })
+	case "set":
+		fo := b.P.FindOptionByLongName("val")
+		if fo == nil {
+			c.Violate("setup-error", "option --val not found")
+			return
+		}
+		pan = safely(func() {
+			txt := cs.Text
+			err = fo.Set(&txt)
+		})
 	case "ini":
 		txt := cs.Text
 		if t.W == WMap {
